@@ -273,11 +273,19 @@ func compareOps(got, want []content.Operator) (string, string) {
 		}
 		for k := range want[i].Args {
 			if !hx.Equal(got[i].Args[k], want[i].Args[k]) {
-				return "operand:" + kindOf(want[i].Args[k]), fmt.Sprintf("operator %d (%s) operand %d: wrote %s read %s", i, want[i].Name, k, hx.Show(want[i].Args[k]), hx.Show(got[i].Args[k]))
+				return "operand:" + operandClass(want[i].Args[k]), fmt.Sprintf("operator %d (%s) operand %d: wrote %s read %s", i, want[i].Name, k, hx.Show(want[i].Args[k]), hx.Show(got[i].Args[k]))
 			}
 		}
 	}
 	return "", ""
+}
+
+// operandClass is kindOf, with the number of significant digits for reals.
+func operandClass(o pdf.Object) string {
+	if x, ok := o.(pdf.Real); ok {
+		return "real;" + sigDigitBucket(float64(x))
+	}
+	return kindOf(o)
 }
 
 func kindOf(o pdf.Object) string {
